@@ -246,6 +246,15 @@ class Scratch:
                               "module_sha256": sha256(open(module_path).read())})
         return modname
 
+    def prepend_crate_attr(self, attr):
+        """Insert a crate-level attribute at the top of lib.rs (after nothing: inner attributes must come first)."""
+        if attr in getattr(self, "_crate_attrs", set()):
+            return
+        self._crate_attrs = getattr(self, "_crate_attrs", set()) | {attr}
+        src = self.read("lib.rs")
+        self.write("lib.rs", attr + "\n" + src)
+        self.injected.append({"rule": "T2 crate attribute", "file": "lib.rs", "attribute": attr})
+
     def append_text(self, parent_rel, text, rule, note):
         with open(self.src_path(parent_rel), "a") as f:
             f.write("\n" + text + "\n")
